@@ -599,21 +599,25 @@ def symbolic_returns(fn: ast.AST, max_paths: int = 256
 
 class SymPath:
     """One path through a loop-free function / block."""
-    __slots__ = ("conds", "env", "trace", "ret")
+    __slots__ = ("conds", "env", "trace", "ret", "retval")
 
-    def __init__(self, conds, env, trace, ret):
+    def __init__(self, conds, env, trace, ret, retval=None):
+        self.retval = retval  # the returned expression, earlier assignments substituted
         self.conds = conds    # [(test with earlier assignments substituted, polarity)]
         self.env = env        # final symbolic values: names and attribute targets by text
         self.trace = trace    # the simple statements executed, in order (original nodes)
         self.ret = ret        # the ast.Return that ended the path, or None (fell off the end)
 
 
-def symbolic_paths(fn: ast.AST, max_paths: int = 512) -> List[SymPath]:
+def symbolic_paths(fn: ast.AST, max_paths: int = 512,
+                   opaque: Iterable[str] = ()) -> List[SymPath]:
     """Every path ENTRY -> EXIT of a loop-free function with the branch tests taken, the final
     symbolic values of everything assigned (local names and attribute targets such as `self.x`,
     keyed by source text, earlier assignments substituted) and the statements executed.
-    Paths that leave through an exception are not reported."""
+    Paths that leave through an exception are not reported. Names in ``opaque`` are never
+    substituted (they stay visible in tests and values)."""
     import copy
+    opaque = set(opaque)
     cfg = CFG(fn)
     for n in cfg.nodes:
         if n.kind in ("while", "for"):
@@ -639,13 +643,13 @@ def symbolic_paths(fn: ast.AST, max_paths: int = 512) -> List[SymPath]:
     def sub(e, env):
         return ast.fix_missing_locations(_S(env).visit(copy.deepcopy(e)))
 
-    def go(nid, env, conds, seen, trace, ret):
+    def go(nid, env, conds, seen, trace, ret, retval=None):
         if nid in seen or nid == RAISE:
             return
         if nid == EXIT:
             if len(out) >= max_paths:
                 raise AnalysisError("symbolic_paths: too many paths")
-            out.append(SymPath(conds, env, trace, ret))
+            out.append(SymPath(conds, env, trace, ret, retval))
             return
         node = cfg.nodes[nid]
         seen = seen + (nid,)
@@ -654,13 +658,14 @@ def symbolic_paths(fn: ast.AST, max_paths: int = 512) -> List[SymPath]:
             trace = trace + [st]
             if isinstance(st, ast.Return):
                 ret = st
+                retval = sub(st.value, env) if st.value is not None else None
         if node.kind == "stmt" and isinstance(st, (ast.Assign, ast.AnnAssign)) and \
                 st.value is not None:
             tgs = st.targets if isinstance(st, ast.Assign) else [st.target]
             val = sub(st.value, env)
             env = dict(env)
             for tg in tgs:
-                if isinstance(tg, (ast.Name, ast.Attribute)):
+                if isinstance(tg, (ast.Name, ast.Attribute)) and ast.unparse(tg) not in opaque:
                     env[ast.unparse(tg)] = val
         elif node.kind == "stmt" and isinstance(st, ast.AugAssign) and isinstance(
                 st.target, (ast.Name, ast.Attribute)):
@@ -671,9 +676,10 @@ def symbolic_paths(fn: ast.AST, max_paths: int = 512) -> List[SymPath]:
         for s_ in sorted(cfg.succ[nid]):
             lab = cfg.label.get((nid, s_))
             if node.kind == "if" and lab in ("T", "F") and node.expr is not None:
-                go(s_, env, conds + [(sub(node.expr, env), lab == "T")], seen, trace, ret)
+                go(s_, env, conds + [(sub(node.expr, env), lab == "T")], seen, trace, ret,
+                   retval)
             else:
-                go(s_, env, conds, seen, trace, ret)
+                go(s_, env, conds, seen, trace, ret, retval)
     go(ENTRY, {}, [], (), [], None)
     return out
 
